@@ -115,10 +115,13 @@ spec fn io_fail<'i>(pre: ReaderState, rem: Seq<u8>, m: ReaderState, r: core::res
 //@endif
 }
 
+/// the input with its leading whitespace skipped if the switch says so (a function, not an if-expression, so that
+/// the quantifier of text_post can be instantiated through its trigger)
+pub open spec fn text_start(trim: bool, rem0: Seq<u8>) -> Seq<u8> { if trim { trimmed_start(rem0) } else { rem0 } }
 /// reading character data (phase InsideText): `rem0` is the remaining input
 #[verifier::opaque]
 spec fn text_post<'i>(pre: ReaderState, rem0: Seq<u8>, m: ReaderState, rem2: Seq<u8>, r: core::result::Result<Event<'i>, Error>, fault: bool) -> bool {
-    let r1 = if pre.config.trim_text_start { trimmed_start(rem0) } else { rem0 };
+    let r1 = text_start(pre.config.trim_text_start, rem0);
     let base = pre.offset + (rem0.len() - r1.len());
     ||| io_fail(pre, rem0, m, r, fault)
     ||| if no_lt(r1) {
